@@ -1,6 +1,6 @@
 (* Proofs about Model/ObjCheckout.v for C05 (and the shared lemmas of C10). *)
 From Coq Require Import NArith List Bool Lia.
-From DvcData Require Import Base.Val Base.PyBase Gen.PyTypes Gen.ODiff Gen.Relink Model.ObjCheckout.
+From DvcData Require Import Base.Val Base.PyBase Gen.PyTypes Gen.ODiff Gen.Relink Model.ObjCheckout Proofs.ObjCoTie.
 Import ListNotations.
 Open Scope N_scope.
 
@@ -112,7 +112,7 @@ Lemma guard_step_safe g k inc n' cur' :
   guard_step g k inc (Some n') = Some cur' ->
   g_force g = true \/ inc = true \/ (exists f, g_prompt g = Some f /\ f k = true).
 Proof.
-  unfold guard_step, remove_guard, ask.
+  unfold guard_step, ask. rewrite remove_guard_eq. unfold remove_guard_spec.
   destruct (g_force g) eqn:Ef; [intros _; now left|].
   destruct inc; [intros _; right; now left|].
   destruct (g_prompt g) as [f|] eqn:Ep; simpl; [|discriminate].
@@ -143,7 +143,7 @@ Lemma file_step_safe g c w0 tgt k n n' x :
 Proof.
   intros Hk. unfold file_step.
   destruct (new_oid (mk_change c w0 tgt k)) as [o|]; [|simpl; intros E; injection E as <-; now left].
-  rewrite post_info_payload.
+  rewrite cf_gen_eq. rewrite post_info_payload.
   destruct (cf_decide _ _ _ _ _).
   - rewrite ch_key_mk.
     destruct (guard_step g k false (Some n')) as [cur1|] eqn:Ed; [|discriminate].
